@@ -123,6 +123,19 @@ func c05Conv[E float32 | float64](v *zzverif.T) {
 	}
 	v.Region("C05.kernel-with-unit-spatial-extent", nd <= 2 && anyUnit && (C > 1 || !allUnit))
 	for round := 0; round < 2; round++ {
+		if round == 1 {
+			// second application of the same instance: other values (same shapes) for x, w and the bias
+			xs = zzverif.Syms[E](v, "x2", zzverif.Prod(xshape))
+			ws = zzverif.Syms[E](v, "w2", zzverif.Prod(wshape))
+			inputs = []tensor.Tensor{zzverif.NewTensor(xs, xshape), zzverif.NewTensor(ws, wshape)}
+			if bs != nil {
+				bs = zzverif.Syms[E](v, "b2", M)
+				inputs = append(inputs, zzverif.NewTensor(bs, []int{M}))
+			}
+			for i := range inputs {
+				snaps[i] = v.Snapshot(inputs[i])
+			}
+		}
 		r := zzApplyOn(v, inst, inputs)
 		v.Assert("C05.no-panic", !r.Panicked)
 		if r.Panicked {
